@@ -75,6 +75,13 @@ SortedEager(s) ==
   IN Asc(1, <<>>)
 
 ZeroCnt == [c \in Callbacks |-> 0]
+\* lifecycle modes a user post-processor can impose on a component (sc.mode):
+\*   "normal"    the full lifecycle
+\*   "beforeNil" a before-initialization processor returns nil: Init and the after-callbacks are skipped (modelled deviation)
+\*   "shortcut"  PostProcessBeforeInstantiation returns the component: no early exposure, no population, no Init;
+\*               only the after-initialization callbacks run (ResolveBeforeInstantiation)
+Modes == {"normal", "beforeNil", "shortcut"}
+Reached(m) == CASE m = "normal" -> Callbacks [] m = "beforeNil" -> {"resolve", "before"} [] m = "shortcut" -> {"after"}
 
 InitWith(s) ==
   /\ sc = s
@@ -110,7 +117,7 @@ Pop == SubSeq(stack, 1, Len(stack) - 1)
 Frame(n) == [n |-> n, pc |-> "mark", todoS |-> {}, todoL |-> {}, open |-> FALSE, acc |-> <<>>, exp |-> NoV]
 
 \* a required point that only the holder itself could satisfy
-SelfOnly(s, h) == (h \in s.single[h] /\ ~s.selfOpt[h]) \/ (s.slice[h] = {h} /\ ~s.sliceOpt[h])
+SelfOnly(s, h) == s.mode[h] # "shortcut" /\ ((h \in s.single[h] /\ ~s.selfOpt[h]) \/ (s.slice[h] = {h} /\ ~s.sliceOpt[h]))
 
 \* Meta.IsSelf: the candidate's origin address is the holder's own object
 IsSelf(h, v) == v.n = h /\ v.o = "raw"
@@ -211,13 +218,29 @@ CreateBegin ==
 \* harness processor's resolve event can fire; nothing observable lies between addFactory and the
 \* failing createEnd, so the two code steps are one action here.
 AddFactory ==
-  /\ stack # <<>> /\ Top.pc = "factory"
+  /\ stack # <<>> /\ Top.pc = "factory" /\ sc.mode[Top.n] # "shortcut"
   /\ L3' = L3 \cup {Top.n}
   /\ phase' = [phase EXCEPT ![Top.n] = "populating"]
   /\ stack' = [stack EXCEPT ![Len(stack)] = [Top EXCEPT !.pc = IF FixF3 /\ SelfOnly(sc, Top.n) THEN "fail" ELSE "resolve"]]
   /\ UNCHANGED <<sc, pinit, L1, L2, inCr, fS, fL, deps, earlyRuns, seen, cnt, queue, status, lookups, failedEver>>
 
 Bump(n, c) == [cnt EXCEPT ![n][c] = @ + 1]
+
+\* EVENT binst(n): ResolveBeforeInstantiation - a processor hands the component back before instantiation
+Shortcut ==
+  /\ stack # <<>> /\ Top.pc = "factory" /\ sc.mode[Top.n] = "shortcut"
+  /\ stack' = [stack EXCEPT ![Len(stack)] = [Top EXCEPT !.pc = "sainit"]]
+  /\ phase' = [phase EXCEPT ![Top.n] = "populating"]
+  /\ UNCHANGED <<sc, pinit, L1, L2, L3, inCr, fS, fL, deps, earlyRuns, seen, cnt, queue, status, lookups, failedEver>>
+\* EVENT after(n, ok) on the shortcut path: only the after-initialization callbacks run, then the component is returned
+SAfter ==
+  /\ stack # <<>> /\ Top.pc = "sainit"
+  /\ LET n == Top.n IN
+     /\ cnt' = Bump(n, "after")
+     /\ IF sc.fail[n] = "after"
+        THEN stack' = [stack EXCEPT ![Len(stack)] = [Top EXCEPT !.pc = "fail"]] /\ UNCHANGED phase
+        ELSE stack' = [stack EXCEPT ![Len(stack)] = [Top EXCEPT !.pc = "end", !.exp = Raw(n)]] /\ phase' = [phase EXCEPT ![n] = "ainit"]
+  /\ UNCHANGED <<sc, pinit, L1, L2, L3, inCr, fS, fL, deps, earlyRuns, seen, queue, status, lookups, failedEver>>
 
 \* EVENT resolve(n, ok): ResolveAfterInstantiation reached the rig processor (PostProcessProperties)
 Resolve ==
@@ -245,7 +268,15 @@ Callback(pcFrom, failTag, pcTo, ph) ==
              /\ phase' = [phase EXCEPT ![n] = ph]
   /\ UNCHANGED <<sc, pinit, L1, L2, L3, inCr, fS, fL, deps, earlyRuns, seen, queue, status, lookups, failedEver>>
 
-BInit  == Callback("pop", "before", "aps", "binit")
+BInit  == \/ (stack # <<>> /\ sc.mode[Top.n] # "beforeNil" /\ Callback("pop", "before", "aps", "binit"))
+          \/ \* the processor returns nil: InitializeComponent hands the untouched instance back, Init is skipped
+             /\ stack # <<>> /\ sc.mode[Top.n] = "beforeNil" /\ PopulateDone(Top)
+             /\ LET n == Top.n IN
+                /\ cnt' = Bump(n, "before")
+                /\ IF sc.fail[n] = "before"
+                   THEN stack' = [stack EXCEPT ![Len(stack)] = [Top EXCEPT !.pc = "fail"]] /\ UNCHANGED phase
+                   ELSE stack' = [stack EXCEPT ![Len(stack)] = [Top EXCEPT !.pc = "check", !.exp = Raw(n)]] /\ phase' = [phase EXCEPT ![n] = "binit"]
+             /\ UNCHANGED <<sc, pinit, L1, L2, L3, inCr, fS, fL, deps, earlyRuns, seen, queue, status, lookups, failedEver>>
 APS    == Callback("aps", "aps", "init", "aps")
 InitCb == Callback("init", "init", "ainit", "init")
 
@@ -328,6 +359,7 @@ RefreshDone ==
 Next == (\E t \in Node, kind \in {"S", "L", "top"} : Get(t, kind)) \/ CreateBegin \/ AddFactory \/ Resolve
         \/ BInit \/ APS \/ InitCb \/ AInit \/ Check \/ CreateEnd \/ RefreshDone
         \/ \E p \in 1..2 : ProcInit(p)
+        \/ Shortcut \/ SAfter
 
 Spec == Init /\ [][Next]_vars
 LiveSpec == Spec /\ WF_vars(Next)
@@ -354,7 +386,7 @@ C03_NoStaleExceptSelf ==          \* the F9 signature excluded (holder = target)
         /\ \A i \in 1..Len(fL[h]) : LET v == fL[h][i] IN v.n # h => (L1[v.n] # NoV /\ v.o = L1[v.n].o)
 
 \* ---- C02: circular dependencies resolve, start-up terminates
-NoSubst == \A n \in Node : sc.wrap[n] = "none" /\ sc.fail[n] = "none"
+NoSubst == \A n \in Node : sc.wrap[n] = "none" /\ sc.fail[n] = "none" /\ sc.mode[n] = "normal"
 C02_Populated ==
   (Started /\ NoSubst) =>
      \A h \in Node : phase[h] = "published" =>
@@ -382,7 +414,7 @@ C04_NoHalfBuilt ==
 \* ---- C05: lifecycle
 C05_Once ==          \* a retry after a failed attempt necessarily repeats callbacks: per successful start only
   ~failedEver => \A n \in Node :
-     /\ phase[n] = "published" => \A c \in Callbacks : cnt[n][c] = 1
+     /\ phase[n] = "published" => \A c \in Callbacks : cnt[n][c] = (IF c \in Reached(sc.mode[n]) THEN 1 ELSE 0)
      /\ phase[n] = "new" => \A c \in Callbacks : cnt[n][c] = 0
 C05_InitOnce == \A n \in Node : ~failedEver => cnt[n]["init"] <= 1
 
@@ -391,7 +423,7 @@ C05_LazyProcs == \A p \in 1..Len(sc.procs) : (sc.procs[p] => pinit[p] = 0) /\ pi
 C05_ProcsBeforeRefresh == (\E n \in Node : phase[n] # "new") => \A p \in 1..Len(sc.procs) : sc.procs[p] \/ pinit[p] = 1
 
 \* graph helpers (scenario only)
-Edges(s) == {<<h, t>> \in Node \X Node : t # h /\ (t \in s.single[h] \/ t \in s.slice[h])}
+Edges(s) == {<<h, t>> \in Node \X Node : t # h /\ s.mode[h] # "shortcut" /\ (t \in s.single[h] \/ t \in s.slice[h])}
 RECURSIVE ReachSet(_, _, _)
 ReachSet(s, frontier, seenSet) ==
   IF frontier = {} THEN seenSet
@@ -420,6 +452,7 @@ C02_FailIffSelfOnly ==
      ((status = "failed") <=> (\E h \in EagerReach(sc) : SelfOnly(sc, h)))
 
 \* ---- C09: any injected fault reachable from an eager node fails the start (as an error, see the trace spec for panics)
-FaultReached(s) == \E n \in EagerReach(s) : s.fail[n] \in {"resolve", "before", "aps", "init", "after"}
+\* (a shortcut component fetches nothing, so what lies behind it is not reached through it)
+FaultReached(s) == \E n \in EagerReach(s) : s.fail[n] \in Reached(s.mode[n])
 C09_FaultFails == (Quiescent /\ status = "done" /\ lookups = 0) => ~FaultReached(sc)
 =============================================================================
